@@ -413,6 +413,121 @@ def catalogue_case(args):
     return [f'[{simname}, {layout}, {pattern}] {b}' for b in bad]
 
 
+def module_state(mod):
+    """deep snapshot of the mutable module-level objects of a module (frame of its functions)"""
+    import copy
+    out = {}
+    for k, v in vars(mod).items():
+        if isinstance(v, (dict, list, set)) and not k.startswith('__'):
+            try:
+                out[k] = copy.deepcopy(v)
+            except Exception:
+                out[k] = repr(v)
+    return out
+
+
+def unknown_group_case(_=None):
+    """group files whose thorn-group is NOT in known_groups (their variables are read from the file): two restarts and a
+    second simulation with DIFFERENT variable sets, all scanned in one process, in two orders.  ensures: every scan reports
+    what is in that directory (a function of the directory only) and no module-level state of aurel.reading changes."""
+    import aurel
+    import aurel.reading as Rm
+    bad = []
+    G = lambda *vs: {v: ('SCALARFIELD', 'scalarfield-fields') for v in vs}
+    sims = [('sfrun', [((0, [0, 2], 0), ('phi', 'Pi')), ((1, [2, 4], 1), ('phi', 'Pi', 'chi'))]),
+            ('sfother', [((0, [0, 2], 0), ('sigma', 'omega'))])]
+    for layout in (('onefile', 'grouped'), ('proc', 'grouped')):
+        for order in (0, 1):
+            root = tempfile.mkdtemp(prefix='c18u_')
+            try:
+                for simname, parts in sims:
+                    for rs, vs in parts:
+                        etgen.make_sim(root, simname, layout, restarts=[rs], shape=(4, 3, 3), cuts=(2, 1, 1) if layout[0] == 'proc' else (1, 1, 1),
+                                       ghost=1, rls=(0,), variables=vs, groups=G(*vs))
+                before = module_state(Rm)
+                todo = [(simname, rs[0], vs) for simname, parts in sims for rs, vs in parts]
+                if order:
+                    todo = todo[::-1]
+                for simname, rnum, vs in todo:
+                    p = etgen.param_for(root, simname)
+                    for kw in (dict(), dict(overwrite=True)):
+                        c = aurel.get_content(p, restart=rnum, verbose=False, **kw)
+                        got = sorted(v for k in c for v in k)
+                        if got != sorted(vs):
+                            bad.append(f'layout {layout}, scan order {[t[:2] for t in todo]}: get_content({simname}, restart={rnum}, {kw}) reports variables {got}, the files hold {sorted(vs)}')
+                for simname, parts in sims:
+                    full = aurel.iterations(etgen.param_for(root, simname), skip_last=False, verbose=False)
+                    for rs, vs in parts:
+                        got = sorted(full[rs[0]]['var available'])
+                        if got != sorted(vs):
+                            bad.append(f'layout {layout}: iterations({simname})[{rs[0]}]["var available"] = {got}, the files hold {sorted(vs)}')
+                after = module_state(Rm)
+                changed = [k for k in before if before[k] != after.get(k)] + [k for k in after if k not in before]
+                if changed:
+                    bad.append(f'module-level state of aurel.reading written by cataloguing calls: {changed}')
+            except Exception as e:
+                import traceback
+                bad.append(f'raised {type(e).__name__}: {e} :: {traceback.format_exc()[-300:]}')
+            finally:
+                shutil.rmtree(root, ignore_errors=True)
+            if bad:
+                return bad
+    return bad
+
+
+MUTATORS = {'append', 'extend', 'update', 'setdefault', 'pop', 'popitem', 'remove', 'clear', 'add', 'discard', 'insert', 'sort', 'reverse', '__setitem__', '__delitem__'}
+
+
+def module_frame_obligation(R):
+    """frame of every function of aurel.reading with respect to module-level state: no `global` statement, and no
+    mutation (item assignment / deletion, augmented assignment, mutating method) of a module-level dict / list / set,
+    directly or through a local alias `x = NAME` (flow-insensitive, one level -- deeper aliasing is covered dynamically by
+    the module-state snapshot of the unknown-group scenario)."""
+    import aurel.reading as Rm
+    t0 = time.time()
+    tree = ast.parse(inspect.getsource(Rm))
+    modstate = {k for k, v in vars(Rm).items() if isinstance(v, (dict, list, set)) and not k.startswith('__')}
+    bad = []
+    nfun = 0
+    for fn in [n for n in ast.walk(tree) if isinstance(n, (ast.FunctionDef, ast.AsyncFunctionDef))]:
+        nfun += 1
+        params = {a.arg for a in fn.args.args + fn.args.kwonlyargs} | ({fn.args.vararg.arg} if fn.args.vararg else set()) | ({fn.args.kwarg.arg} if fn.args.kwarg else set())
+        stored = {n.id for n in ast.walk(fn) if isinstance(n, ast.Name) and isinstance(n.ctx, ast.Store)}
+        shadow = params | {n for n in stored}          # a local of the same name shadows the module-level one
+        tracked = {m for m in modstate if m not in shadow}
+        alias = {}
+        for n in ast.walk(fn):
+            if isinstance(n, ast.Global):
+                bad.append(f'{fn.name}: global {", ".join(n.names)}')
+            if isinstance(n, ast.Assign) and isinstance(n.value, ast.Name) and n.value.id in tracked:
+                for t in n.targets:
+                    if isinstance(t, ast.Name):
+                        alias[t.id] = n.value.id
+        names = tracked | set(alias)
+
+        def root(e):
+            return e.id if isinstance(e, ast.Name) and e.id in names else None
+        for n in ast.walk(fn):
+            tgt = []
+            if isinstance(n, ast.Assign):
+                tgt = n.targets
+            elif isinstance(n, (ast.AugAssign, ast.AnnAssign)):
+                tgt = [n.target]
+            elif isinstance(n, ast.Delete):
+                tgt = n.targets
+            for t in tgt:
+                for sub in ast.walk(t):
+                    if isinstance(sub, (ast.Subscript, ast.Attribute)) and root(sub.value):
+                        bad.append(f'{fn.name}: line {n.lineno} writes into module-level {alias.get(root(sub.value), root(sub.value))}')
+                if isinstance(n, ast.AugAssign) and isinstance(t, ast.Name) and t.id in alias:
+                    bad.append(f'{fn.name}: line {n.lineno} augmented assignment to an alias of module-level {alias[t.id]}')
+            if isinstance(n, ast.Call) and isinstance(n.func, ast.Attribute) and n.func.attr in MUTATORS and root(n.func.value):
+                bad.append(f'{fn.name}: line {n.lineno} calls .{n.func.attr}() on module-level {alias.get(root(n.func.value), root(n.func.value))}')
+    R.ob('reading.*:frame -- no function writes module-level state (result depends on the arguments and the directory only)', 'get_content',
+         'refuted' if bad else 'discharged', 'ast-frame', time.time() - t0, '; '.join(bad[:4]) or f'{nfun} functions, module-level containers {sorted(modstate)}',
+         bad[:6] or None, replay=lambda o: (lambda ug: (bool(ug), '; '.join(ug[:3]) or 'the unknown-group scenario shows no stale state'))(unknown_group_case()))
+
+
 def catalogue_cases(tier):
     names = ['sim', 'restart_run', 'my-run.v2', 'rl_it_3D', 'Checkpoints_available']
     layouts = list(itertools.product(('onefile', 'proc'), ('ungrouped', 'grouped')))
@@ -437,6 +552,11 @@ def catalogue_obligations(R, tier, known_nonuniform):
     with mp.Pool(min(14, len(cases))) as pool:
         res = pool.map(catalogue_case, cases, chunksize=1)
     bad = [b for r in res for b in r]
+    with mp.Pool(1) as pool:
+        ug = pool.map(unknown_group_case, [0])[0]
+    R.ob('reading.get_content/iterations:a function of the directory only (unknown group files, several directories in one process); no module-level state written',
+         'get_content', 'refuted' if ug else 'bounded-ok', 'bounded-native', 0.0, '; '.join(ug[:3]), ug[:6] or None,
+         bounded='2 simulations, 3 restart directories with different variable sets in an unknown group, 2 layouts, 2 scan orders', replay=lambda o: (bool(ug), '; '.join(ug[:3])))
     nonuni = [b for b in bad if 'NONUNIFORM' in b]
     other = [b for b in bad if 'NONUNIFORM' not in b]
     R.bounded.append(dict(function='iterations / read_iterations / get_content on generated directories',
@@ -456,6 +576,7 @@ def run(R):
     R.trust('os.listdir / glob / json / open behave as a file system (A4)')
     regex_obligations(R)
     dispatch_obligations(R)
+    module_frame_obligation(R)
     catalogue_obligations(R, R.tier, None)
     R.notes.append('parameters() (.par parser) and the "overall" summary of collect_overall_iterations are not under contract: the property clauses decided here are per-restart catalogue entries, the variable-to-file map, and key / file-name parsing')
     R.extra['explanation'] = ('regex determinism criterion on the real patterns + adversarial enumeration; catalogue line dispatch decided by automaton products over the stated '
